@@ -78,6 +78,21 @@ fn peer_headers(role: Role, kind: &str) -> Vec<u8> {
     frame(1, &section(&f).0)
 }
 
+/// the trailer HEADERS frame the peer sends: "t" good, "tm<j>" malformed, "to" oversized, "tq" undecodable
+fn peer_trailers(kind: &str) -> Vec<u8> {
+    let f: Vec<(&str, Vec<u8>)> = match kind {
+        "t" => vec![("x-t", b"1".to_vec())],
+        "tm0" => vec![("X-T", b"1".to_vec())],            // uppercase field name
+        "tm1" => vec![("x-t", vec![b'a', 0, b'b'])],       // NUL in the field value
+        "tm2" => vec![("x-t", b"1".to_vec()), (":bogus", b"1".to_vec())], // undefined pseudo-header field
+        "tm3" => vec![("x t", b"1".to_vec())],            // not a token
+        "to" => vec![("x-big", vec![b'b'; MAX_FIELD_SECTION as usize])],
+        "tq" => return frame(1, &[0, 0, 0xff, 0x89, 0x01]),
+        _ => panic!("driver: trailers kind {}", kind),
+    };
+    frame(1, &section(&f).0)
+}
+
 /// bytes of one script event; None for FIN / RESET
 fn event_bytes(role: Role, t: &str) -> Option<Vec<u8>> {
     if t == "F" || t.starts_with('R') {
@@ -88,6 +103,15 @@ fn event_bytes(role: Role, t: &str) -> Option<Vec<u8>> {
         let n: usize = n.parse().unwrap();
         let n = 1 + (n.max(1) - 1) % (full.len() - 1);
         return Some(full[..n].to_vec());
+    }
+    if let Some(n) = t.strip_prefix("tp") {
+        let full = peer_trailers("t");
+        let n: usize = n.parse().unwrap();
+        let n = 1 + (n.max(1) - 1) % (full.len() - 1);
+        return Some(full[..n].to_vec());
+    }
+    if t.starts_with('t') {
+        return Some(peer_trailers(t));
     }
     if let Some(tot) = t.strip_prefix("dq") {
         let tot: u64 = tot.parse().unwrap();
@@ -147,6 +171,7 @@ fn yield_now() -> YieldNow {
 struct Obs {
     res: Option<String>,
     data: Vec<u8>,
+    trailers: bool,
     sid: Option<u64>,
 }
 type ObsRef = Rc<RefCell<Obs>>;
@@ -182,12 +207,34 @@ macro_rules! recv_body {
     };
 }
 
-async fn server_task(resolver: h3::server::RequestResolver<SimConn, Bytes>, o: ObsRef, body: Vec<u8>, pad: usize) -> String {
+fn our_trailers(tz: Option<u64>) -> Option<http::HeaderMap> {
+    tz.map(|z| {
+        let mut m = http::HeaderMap::new();
+        m.insert(
+            http::HeaderName::from_static("x-t"),
+            http::HeaderValue::from_bytes(&vec![b't'; (z - 35) as usize]).unwrap(),
+        );
+        m
+    })
+}
+
+macro_rules! recv_trl {
+    ($stream:expr, $o:expr) => {
+        match $stream.recv_trailers().await {
+            Ok(Some(_)) => $o.borrow_mut().trailers = true,
+            Ok(None) => {}
+            Err(e) => return fail(&$o, "recvtrl", &e),
+        }
+    };
+}
+
+async fn server_task(resolver: h3::server::RequestResolver<SimConn, Bytes>, o: ObsRef, body: Vec<u8>, pad: usize, tz: Option<u64>) -> String {
     let (_req, mut stream) = match resolver.resolve_request().await {
         Ok(x) => x,
         Err(e) => return fail(&o, "resolve", &e),
     };
     recv_body!(stream, o);
+    recv_trl!(stream, o);
     yield_now().await;
     let mut resp = http::Response::builder().status(200).body(()).unwrap();
     if let Some((n, v)) = pad_header(pad) {
@@ -201,6 +248,12 @@ async fn server_task(resolver: h3::server::RequestResolver<SimConn, Bytes>, o: O
         return fail(&o, "senddata", &e);
     }
     yield_now().await;
+    if let Some(m) = our_trailers(tz) {
+        if let Err(e) = stream.send_trailers(m).await {
+            return fail(&o, "sendtrl", &e);
+        }
+        yield_now().await;
+    }
     if let Err(e) = stream.finish().await {
         return fail(&o, "finish", &e);
     }
@@ -210,7 +263,7 @@ async fn server_task(resolver: h3::server::RequestResolver<SimConn, Bytes>, o: O
 
 type Sender = Rc<RefCell<h3::client::SendRequest<SimOpener, Bytes>>>;
 
-async fn client_task(sr: Sender, o: ObsRef, body: Vec<u8>, pad: usize) -> String {
+async fn client_task(sr: Sender, o: ObsRef, body: Vec<u8>, pad: usize, tz: Option<u64>) -> String {
     let mut req = http::Request::builder().method("POST").uri("https://a/").body(()).unwrap();
     if let Some((n, v)) = pad_header(pad) {
         req.headers_mut().insert(n, v);
@@ -230,6 +283,12 @@ async fn client_task(sr: Sender, o: ObsRef, body: Vec<u8>, pad: usize) -> String
         return fail(&o, "senddata", &e);
     }
     yield_now().await;
+    if let Some(m) = our_trailers(tz) {
+        if let Err(e) = stream.send_trailers(m).await {
+            return fail(&o, "sendtrl", &e);
+        }
+        yield_now().await;
+    }
     if let Err(e) = stream.finish().await {
         return fail(&o, "finish", &e);
     }
@@ -237,6 +296,7 @@ async fn client_task(sr: Sender, o: ObsRef, body: Vec<u8>, pad: usize) -> String
         return fail(&o, "recvresp", &e);
     }
     recv_body!(stream, o);
+    recv_trl!(stream, o);
     o.borrow_mut().res = Some("ok".into());
     String::new()
 }
@@ -248,17 +308,19 @@ struct ReqSpec {
     pad: usize,
     hsize: u64,
     body: Vec<u8>,
+    trl: Option<u64>,
 }
 
 fn parse_req(s: &str) -> ReqSpec {
     let f: Vec<&str> = s.split(';').collect();
-    assert!(f.len() == 5, "driver: request spec");
+    assert!(f.len() == 6, "driver: request spec");
     ReqSpec {
         events: if f[0] == "-" { vec![] } else { f[0].split('.').map(|x| x.to_string()).collect() },
         stop: if f[1] == "-" { None } else { Some(f[1].parse().unwrap()) },
         pad: f[2].parse().unwrap(),
         hsize: f[3].parse().unwrap(),
         body: unhex(f[4]),
+        trl: if f[5] == "-" { None } else { Some(f[5].parse().unwrap()) },
     }
 }
 
@@ -298,19 +360,22 @@ fn tx_items(role: Role, tx: &[u8]) -> String {
         match ty {
             0 => out.push(format!("d{}", hex(&p))),
             1 => {
-                let tag = match role {
-                    Role::Client => "0".to_string(),
-                    Role::Server => match h3::qpack::decode_stateless(&mut p, u64::MAX) {
-                        Ok(d) => d
-                            .fields
-                            .iter()
-                            .find(|f| &f.name[..] == b":status")
-                            .map(|f| String::from_utf8_lossy(&f.value).to_string())
-                            .unwrap_or_else(|| "?".into()),
-                        Err(_) => "?".into(),
-                    },
+                // the first HEADERS frame on a stream is the message header, a later one the trailer section
+                let first = !out.iter().any(|x| x.starts_with('h'));
+                let item = match h3::qpack::decode_stateless(&mut p, u64::MAX) {
+                    Ok(d) => {
+                        let status = d.fields.iter().find(|f| &f.name[..] == b":status").map(|f| String::from_utf8_lossy(&f.value).to_string());
+                        let pseudo = d.fields.iter().any(|f| f.name.first() == Some(&b':'));
+                        match (role, first, status, pseudo) {
+                            (Role::Server, true, Some(s), _) => format!("h{}", s),
+                            (Role::Client, true, None, true) => "h0".to_string(),
+                            (_, false, None, false) => "t".to_string(),
+                            _ => "h?".to_string(),
+                        }
+                    }
+                    Err(_) => "h?".into(),
                 };
-                out.push(format!("h{}", tag));
+                out.push(item);
             }
             t => out.push(format!("x{}", t)),
         }
@@ -421,7 +486,7 @@ fn run_case(role: Role, reqs: &[ReqSpec], sched: &[&str]) -> Outcome {
             ex.poll(driver);
             let sr: Sender = Rc::new(RefCell::new(sr));
             for i in 0..n {
-                task[i] = Some(ex.spawn(client_task(sr.clone(), obs[i].clone(), reqs[i].body.clone(), reqs[i].pad)));
+                task[i] = Some(ex.spawn(client_task(sr.clone(), obs[i].clone(), reqs[i].body.clone(), reqs[i].pad, reqs[i].trl)));
             }
             sender = Some(sr);
         }
@@ -469,7 +534,7 @@ fn run_case(role: Role, reqs: &[ReqSpec], sched: &[&str]) -> Outcome {
                 if task[i].is_none() {
                     if let Some(r) = accepted.borrow_mut().pop_front() {
                         obs[i].borrow_mut().sid = Some(4 * i as u64);
-                        task[i] = Some(ex.spawn(server_task(r, obs[i].clone(), reqs[i].body.clone(), reqs[i].pad)));
+                        task[i] = Some(ex.spawn(server_task(r, obs[i].clone(), reqs[i].body.clone(), reqs[i].pad, reqs[i].trl)));
                     }
                 }
             }
@@ -556,7 +621,7 @@ fn run_case(role: Role, reqs: &[ReqSpec], sched: &[&str]) -> Outcome {
             }
             None => ("-".to_string(), "-".to_string()),
         };
-        out.push(format!("{};d={};t={};c={}", res, hex(&o.data), t, c));
+        out.push(format!("{};d={};tr={};t={};c={}", res, hex(&o.data), if o.trailers { 1 } else { 0 }, t, c));
     }
     let closes: Vec<String> = g.log.iter().filter_map(|l| l.strip_prefix("close ")).map(|r| r.split(' ').next().unwrap().to_string()).collect();
     let conn = format!(
@@ -589,6 +654,11 @@ fn main() {
             for r in &reqs {
                 if expected_hsize(role, r.pad) != r.hsize {
                     return format!("driver-error hsize {} != {}", expected_hsize(role, r.pad), r.hsize);
+                }
+                if let Some(z) = r.trl {
+                    if z < 35 || section(&[("x-t", vec![b't'; (z - 35) as usize])]).1 != z {
+                        return format!("driver-error trailer size {}", z);
+                    }
                 }
             }
             let sched: Vec<&str> = if &sc[6..] == "-" { vec![] } else { sc[6..].split(',').collect() };
